@@ -40,7 +40,8 @@ def judge(ctx, cfgs, tasks, results):
             a, b = EP.obs_public(o), EP.obs_public(fo)
             if a != b:
                 diff = {k: (a[k], b[k]) for k in a if a[k] != b[k]}
-                ctx.violation("transparency:%s:%s" % (name, H.op_wire(op)),
+                vkey = "rtq-ambiguous-text" if EP.rtq_ambiguous(op[1]) else "transparency:%s:%s" % (name, H.op_wire(op))
+                ctx.violation(vkey,
                               "%s: operation %d %r of history %r returns %r, the same evaluation without any cache returns %r" % (
                                   name, i, op, [x[:2] for x in ops[:i]], {k: v[0] for k, v in diff.items()}, {k: v[1] for k, v in diff.items()}),
                               dict(kind="history", config=name, ops=[list(x) for x in ops[:i + 1]], defaults=dflt))
